@@ -407,6 +407,7 @@ class FuncTranslator(object):
         self.from_global = set()
         self.inline_depth = 0
         self.inlining = []
+        self.inline_frames = {}
         self.calls = []                  # (callee qual) for the call graph
         self.selffields = set()
         self.params = []
@@ -726,8 +727,10 @@ class FuncTranslator(object):
         return join(av, *extra) if extra else av
 
     def st_FunctionDef(self, n, scope):
-        if n.decorator_list:
+        if any(dotted_name(d) not in ('cache', 'functools.cache', 'lru_cache', 'functools.lru_cache')
+               for d in n.decorator_list):
             fail(n, 'decorated nested function')
+        # (a memoising decorator only keeps the returned objects alive while the closure lives)
         scope.nb[n.name] = AV(funcs=[('closure', n, scope)])
         scope.cur.pop(n.name, None)
 
@@ -1374,6 +1377,11 @@ class FuncTranslator(object):
         if name == 'numpy.array' and any(k.arg == 'copy' and not (isinstance(k.value, ast.Constant) and k.value.value is True)
                                          for k in n.keywords):
             spec = 'view:0'             # np.array(x, copy=False / copy=<expr>) may return x itself
+        if name == 'builtins.getattr' and args and not args[0][1].isbuf():
+            mods = [f for f in args[0][1].funcs if f[0] == 'module' and f[1] in self.w.modules]
+            if mods:
+                m = self.w.modules[mods[0][1]]
+                return AV(funcs=[('abel', m.name + '.' + f) for f in sorted(m.funcs) if not f.startswith('_')])
         if name == 'builtins.dict' and not args:
             j = join(*[a for _, a in kws]) if kws else NB
             return AV(j.srcs, True, 'cont', j.funcs, None, (), True)
@@ -1552,6 +1560,21 @@ class FuncTranslator(object):
             args = [(a, self.expr(a, cs)) for a in n.args]
             kws = [(k.arg, self.expr(k.value, cs)) for k in n.keywords]
         key = id(fdef)
+        if key in self.inlining and key in self.inline_frames:
+            # recursive call: its arguments flow into the parameters of the running expansion, its result
+            # is whatever that expansion returns
+            fr = self.inline_frames[key]
+            plist_r = fr['plist']
+            bound_r = self.bind_args(plist_r, n, args, kws, lenient=True)
+            for i, (nm, role) in enumerate(plist_r):
+                av = bound_r.get(i)
+                if av is not None and av.isbuf():
+                    pv = fr['pvars'].get(nm)
+                    if pv is None:
+                        fail(n, 'recursive call passes an array for a parameter that was a number')
+                    self.emit_assign(pv, av)
+            fr['recursive'] = True
+            return AV([fr['retvar']], False, 'unk')
         if key in self.inlining or self.inline_depth > 12:
             fail(n, 'recursive inlining')
         self.inlining.append(key)
@@ -1578,20 +1601,28 @@ class FuncTranslator(object):
                     av = AV((), True, 'cont', (), None, (), True) if role in ('vararg', 'kwarg') else NB
                 if role in ('kwarg', 'vararg') and av is not None:
                     av = AV(av.srcs, True, 'cont', av.funcs, None, (), True)
+                if role == 'pos' and not av.isbuf() and not isinstance(fdef, ast.Lambda):
+                    # keep a variable for the parameter in case a recursive call passes an array
+                    pass
                 self.bind(nm, av, sc)
             sc.retvar = self.tmp('ret')
             sc.retmeta = None
+            self.inline_frames[key] = dict(plist=plist, pvars={nm: sc.cur[nm] for nm, _ in plist if nm in sc.cur},
+                                           retvar=sc.retvar, recursive=False)
             if isinstance(fdef, ast.Lambda):
                 av = self.expr(fdef.body, sc)
                 return av
             self.stmts(fdef.body, sc)
             rm = sc.retmeta
+            if self.inline_frames.get(key, {}).get('recursive') and rm is not None and rm.isbuf():
+                rm = AV(rm.srcs, rm.fresh, 'unk', rm.funcs, None, rm.cls)
             if rm is None or not rm.isbuf():
                 return rm if rm is not None else NB
             return AV([sc.retvar], False, rm.kind, rm.funcs, rm.elems, rm.cls)
         finally:
             self.inlining.pop()
             self.inline_depth -= 1
+            self.inline_frames.pop(key, None)
 
     # -- whole function -----------------------------------------------------
     def translate(self):
